@@ -413,8 +413,8 @@ def eval_mask(case, budget=2.5e6):
 
     # ---- area property ----------------------------------------------------------------------
     A = analytic_area(sp)
-    Aout = abs(analytic_area({**sp, 'kind': sp['kind']}) if len(_parts(sp)) == 1 else
-               (PI if _parts(sp)[0][1] != 'rect' else 4.0) * _parts(sp)[0][2] * _parts(sp)[0][3])
+    _, k0, a0, b0, _ = _parts(sp)[0]
+    Aout = (PI if k0 != 'rect' else 4.0) * a0 * b0      # tolerance relative to the outer area (annulus = difference)
     if not abs(ap.area - A) <= 1e-14 * Aout:
         bad('area/analytic', f'area={ap.area!r} expected {A!r}')
 
@@ -768,8 +768,11 @@ def _run_mask_case(ctx, sp, pos, method, s, budget, do_slices=True, f23=False):
     fails, info = eval_mask(case, budget)
     ctx.case(_ckey(sp, pos, method, s), nontrivial=info.get('nontrivial', False),
              contract=f'mask-{method}', sample={'shape': case['shape'], 'pos': case['pos'], 'method': method, 'subpixels': s})
+    kc = ctx.__dict__.setdefault('_c01_keycount', {})
     for key, what in fails:
-        ctx.check(False, key, what, case=dict(case, fkey=key))
+        kc[key] = kc.get(key, 0) + 1
+        if kc[key] <= 10:      # one defect is hit by many lattice points: record a few, count all (see notes)
+            ctx.check(False, key, what, case=dict(case, fkey=key))
     if do_slices and 'box' in info:
         for shp in IMG_SHAPES:
             sf = eval_slices(info['box'], info['W'], shp, info['mask'])
@@ -883,7 +886,7 @@ def run(ctx):
                 _run_mask_case(ctx, sp, pos, method, s, budget, do_slices=(mi == 0))
 
     # ---- 6. seeded random generic cases ---------------------------------------------------------------
-    nrand = 1500 if th else 150
+    nrand = 1500 if th else 400
     rng = ctx.rng
     kinds = ['circle', 'cann', 'ellipse', 'eann', 'rect', 'rann']
     for i in range(nrand):
@@ -909,6 +912,8 @@ def run(ctx):
         if s == 5 and rng.random() < 0.5:
             s = int(rng.integers(1, 33))
         _run_mask_case(ctx, sp, pos, method, s, budget, do_slices=(i % 3 == 0))
+    if ctx.__dict__.get('_c01_keycount'):
+        ctx.note('mask-contract violations per key (at most 10 of each recorded): ' + repr(dict(sorted(ctx.__dict__['_c01_keycount'].items()))))
     ctx.note(f'mask lattice: {len(shapes)} shapes x {len(cs)} centres; {k} lattice mask cases; {nrand} random cases')
 
 
